@@ -1,7 +1,10 @@
 package props
 
 import (
+	"go/types"
+	"golang.org/x/tools/go/ssa"
 	"strings"
+	"verif/internal/ir"
 
 	"verif/internal/engine/locks"
 )
@@ -33,6 +36,28 @@ func checkC15(c *Ctx) {
 	// blocks every later write to that ring
 	lockBalance(c, func(cl string) bool { return cl == "service.service.wmu" }, "write-mutex")
 	nfun := lockBalance(c, isCondLockClass, "cond")
+	// methods of the ring that lock a cond through a helper which is handed the condition variable (`wakeAll(c)`)
+	viaHelper := map[*ssa.Function]bool{}
+	for _, h := range c.P.Funcs {
+		if h.Pkg == nil || h.Pkg.Pkg.Path() != pkgService || h.Blocks == nil {
+			continue
+		}
+		takesCond := false
+		for _, prm := range h.Params {
+			if pt, ok := prm.Type().(*types.Pointer); ok && ir.TypeIs(pt.Elem(), "sync", "Cond") {
+				takesCond = true
+			}
+		}
+		if !takesCond || len(c.calls(h, "sync", "Cond", "Broadcast")) == 0 {
+			continue
+		}
+		for _, site := range c.P.Callers(h) {
+			if recvNamed(site.Parent()) == "buffer" {
+				viaHelper[site.Parent()] = true
+			}
+		}
+	}
+	nfun += len(viaHelper)
 	c.R.Floor("functions operating a cond lock", nfun, 6)
 	w, b, s := monitorRules(c, buf)
 	c.cachedCursorComparisons(buf)
